@@ -5,6 +5,10 @@ views, every bin, every combination of switches, every history (no bounds).
 
 What is *not* a theorem here: that the ray tracer (`compute`) itself is equivariant under the grid isometries
 (`compute (op.onBin b₀) = op.onElems (compute b₀)`); that is what the C++ oracle of the check evaluates.
+What *is* a theorem (section "geometric equivariance over ℝ", `ProofsLOR.lean`) is the geometric reason for it: the
+line of response of `op.onBin b₀` — and the whole bundle of rays the ray tracer traces for it — is the image of that of
+`b₀` under the isometry of ℝ³ that extends `op.onVoxel`.  What stays outside Lean is only that Siddon's intersection
+lengths of a line with the voxels of a grid are invariant under isometries of the grid (and floating-point rounding).
 -/
 import StirVerif.C03.ProofsRebuild
 import StirVerif.C03.ProofsBasic
@@ -13,6 +17,7 @@ import StirVerif.C03.ProofsKey
 import StirVerif.C03.ProofsCache
 import StirVerif.C03.ProofsZ
 import StirVerif.C03.ProofsMisc
+import StirVerif.C03.ProofsLOR
 
 namespace StirVerif.C03
 
@@ -137,6 +142,113 @@ theorem C03_row_in_image_z_partial (V : Int) (f : Flags) (g : AxGeo) (hg : g.Sym
   simp only [AxGeo.hasPlane, decide_eq_true_eq]
   omega
 
+/-! ## geometric equivariance over ℝ
+
+"it is the same whether it is computed directly or derived from a symmetry-related row": the geometric content.
+Points of ℝ³ are in voxel-index coordinates (x, y, z) = (`c[3]`, `c[2]`, `c[1]`).  The LOR of a bin is the line traced by
+`ray_trace_one_lor` (ProjMatrixByBinUsingRayTracing.cxx:457-518), path parameter `t = −a`:
+`x = ox + cx·((s+ds)·cos φ − t·sin φ)`, `y = oy + cy·((s+ds)·sin φ + t·cos φ)`, `z = zmid + dz + t·tanθ`,
+`φ = φ₀ + view·π/V`; `s`, `tanθ` arbitrary odd functions of tangential position / segment (`LorGeo.WF`); `(ds, dz)` the
+displacement of one ray of the bundle (`num_tangential_LORs`, `num_lors_per_axial_pos`) from the central LOR.
+`SymOp.Fits o G` = the conditions under which the constructor leaves the operation in use, as far as needed: image
+centred on the axis (operations that move x,y), `view180 = V` and `φ₀ = 0` (operations that change the view), `V` even
+and square voxels (operations that exchange x and y; the constructor asks for `V % 4 = 0`, the geometry needs
+`V % 2 = 0` only).  No restriction on the view number is needed. -/
+
+/-- the real-affine map `onPoint` extends `onVoxel` (agrees with it on voxel centres) and is an isometry of ℝ³ -/
+theorem C03_lor_onPoint_extends_onVoxel (o : SymOp) (c : Vox) (p p' : P3) :
+    o.onPoint c.toP3 = (o.onVoxel c).toP3 ∧
+    ((o.onPoint p).x - (o.onPoint p').x) ^ 2 + ((o.onPoint p).y - (o.onPoint p').y) ^ 2
+        + ((o.onPoint p).z - (o.onPoint p').z) ^ 2 = (p.x - p'.x) ^ 2 + (p.y - p'.y) ^ 2 + (p.z - p'.z) ^ 2 :=
+  ⟨onPoint_toP3 o c, onPoint_isometry o p p'⟩
+
+/-- **every kind, pointwise**: the operation carries the point with path parameter `t` on the ray `(ds, dz)` of `b` to
+    the point with path parameter `± t` on the ray `(± ds, ± dz)` of `o.onBin b`; the three signs are `orient`
+    (−1: the direction `(−sin φ, cos φ, tan θ)` is reversed), `sSign` (−1 exactly on the branches of `onBin` that negate
+    the tangential position) and `zSign` (−1 for the `…_zq` kinds).
+    `hz`: the z map of the operation carries the axial midpoint of `b` to that of `o.onBin b` (a condition on the
+    constants `q`, `z_shift`, `axial_pos_shift` stored in the operation; discharged for the operations actually built
+    in `C03_lor_equivariant_findSymOp`). -/
+theorem C03_lor_equivariant_pointwise (G : LorGeo) (hG : G.WF) (o : SymOp) (hf : o.Fits G) (b : Bin)
+    (hz : o.onZ (G.zmid b.seg b.ax) = G.zmid (o.onBin b).seg (o.onBin b).ax) (ds dz t : ℝ) :
+    o.onPoint (G.ray b ds dz t) =
+      G.ray (o.onBin b) ((o.sSign b : ℝ) * ds) ((o.zSign : ℝ) * dz) ((o.orient b : ℝ) * t) ∧
+    (o.orient b = 1 ∨ o.orient b = -1) ∧ (o.sSign b = 1 ∨ o.sSign b = -1) ∧ (o.zSign = 1 ∨ o.zSign = -1) ∧
+    (o.onBin b).tang = o.sSign b * b.tang :=
+  ⟨onPoint_ray G hG o hf b hz ds dz t, orient_cases o b, sSign_cases o b, zSign_cases o, onBin_tang o b⟩
+
+/-- **every kind, as sets**: `onPoint o` maps the LOR of `b` *onto* the LOR of `o.onBin b` -/
+theorem C03_lor_equivariant (G : LorGeo) (hG : G.WF) (o : SymOp) (hf : o.Fits G) (b : Bin)
+    (hz : o.onZ (G.zmid b.seg b.ax) = G.zmid (o.onBin b).seg (o.onBin b).ax) :
+    o.onPoint '' G.lor b = G.lor (o.onBin b) :=
+  lor_equivariant G hG o hf b hz
+
+/-- … and the bundle of rays of `b` onto the bundle of rays of `o.onBin b`, for displacements placed symmetrically
+    about the central LOR (as the ray tracer places them) -/
+theorem C03_lor_equivariant_tube (G : LorGeo) (hG : G.WF) (o : SymOp) (hf : o.Fits G) (b : Bin)
+    (hz : o.onZ (G.zmid b.seg b.ax) = G.zmid (o.onBin b).seg (o.onBin b).ax)
+    (Ds Dz : Set ℝ) (hDs : ∀ d ∈ Ds, -d ∈ Ds) (hDz : ∀ d ∈ Dz, -d ∈ Dz) :
+    o.onPoint '' G.tube Ds Dz b = G.tube Ds Dz (o.onBin b) :=
+  tube_equivariant G hG o hf b hz Ds Dz hDs hDz
+
+/-- **TOF sign rule.**  Modelling assumption: the TOF coordinate is the path parameter `t` (orientation fixed by view and
+    tangential position), timing position `k` collects `|t − c(k)| ≤ w`, `c` odd.  Then every operation carries the TOF
+    part of `b` onto the TOF part of `o.onBin b` *with timing position `orient · tof`*; hence onto the TOF part of
+    `o.onBin b` itself exactly where `onBin` negates the timing position iff the operation reverses the LOR
+    (`TofRule`), which is so for every bin with the eight kinds `tofSafe` and for timing position 0 with all kinds. -/
+theorem C03_lor_equivariant_tof (G : LorGeo) (hG : G.WF) (T : TofGeo) (o : SymOp) (hf : o.Fits G) (b : Bin)
+    (hz : o.onZ (G.zmid b.seg b.ax) = G.zmid (o.onBin b).seg (o.onBin b).ax) :
+    o.onPoint '' G.tofPart T b = G.tofPart T { o.onBin b with tof := o.orient b * b.tof } ∧
+    (o.TofRule b → o.onPoint '' G.tofPart T b = G.tofPart T (o.onBin b)) ∧
+    (o.kind.tofSafe = true ∨ b.tof = 0 → o.TofRule b) :=
+  ⟨tofPart_image G hG T o hf b hz, tofPart_equivariant G hG T o hf b hz,
+    fun h => h.elim (fun h => tofRule_of_safe o h b) (tofRule_of_tof_zero o b)⟩
+
+/-- … and the sign rule is false for the other nine kinds: with the 180° symmetry on, the operation found for a bin with
+    a view beyond 90° (`swap_xmx_zq`) reverses the LOR but leaves timing position 1 alone — the derived row would be
+    that of timing position −1.  (This is the geometric reason behind the constructor's "disabling rotational
+    symmetries for the projector with TOF data".) -/
+theorem C03_lor_equivariant_tof_fails :
+    let y : Sym := { V := 8, d90 := false, d180 := true, swapSeg := false, swapS := false, shiftZ := false,
+                     nppr := 2, nppa := fun _ => 1, delta2 := fun _ => 0, zoff4 := fun _ => 0 }
+    (y.findSymOp ⟨0, 6, 0, 0, 1⟩).kind = .swap_xmx_zq ∧
+    (y.findSymOp ⟨0, 6, 0, 0, 1⟩).onBin (y.basic ⟨0, 6, 0, 0, 1⟩) = ⟨0, 6, 0, 0, 1⟩ ∧
+    (y.findSymOp ⟨0, 6, 0, 0, 1⟩).orient (y.basic ⟨0, 6, 0, 0, 1⟩) = -1 ∧
+    ¬ (y.findSymOp ⟨0, 6, 0, 0, 1⟩).TofRule (y.basic ⟨0, 6, 0, 0, 1⟩) := by decide
+
+/-- **corollary for `find_symmetry_operation_from_basic_bin`**: for every bin in the view range, every combination of
+    switches (`WF`), every geometry that agrees with the symmetries object (`Agrees`: same number of views, axial
+    midpoints `centre4/4` from `find_relation_between_coordinate_systems`, square voxels if 90° is on, no azimuthal
+    offset if 180° is on, image centred if 180° or swap_s is on), the LOR of `b` is the image under the operation found
+    for `b` of the LOR of its basic bin — point by point (first part, with the bundle displacements) and as sets -/
+theorem C03_lor_equivariant_findSymOp (V : Int) (f : Flags) (g : AxGeo) (hg : g.Symmetric)
+    (hy : (Sym.make V f g).WF) (G : LorGeo) (hG : G.WF) (hA : G.Agrees (Sym.make V f g)) (b : Bin)
+    (hv : 0 ≤ b.view ∧ b.view < V) :
+    let y := Sym.make V f g
+    (∀ ds dz t : ℝ, (y.findSymOp b).onPoint (G.ray (y.basic b) ds dz t) =
+      G.ray b (((y.findSymOp b).sSign (y.basic b) : ℝ) * ds) (((y.findSymOp b).zSign : ℝ) * dz)
+        (((y.findSymOp b).orient (y.basic b) : ℝ) * t)) ∧
+    (y.findSymOp b).onPoint '' G.lor (y.basic b) = G.lor b :=
+  ⟨ray_findSymOp V f g hg hy G hG hA b hv, lor_equivariant_findSymOp V f g hg hy G hG hA b hv⟩
+
+/-- … the same for the bundle of rays -/
+theorem C03_lor_equivariant_findSymOp_tube (V : Int) (f : Flags) (g : AxGeo) (hg : g.Symmetric)
+    (hy : (Sym.make V f g).WF) (G : LorGeo) (hG : G.WF) (hA : G.Agrees (Sym.make V f g)) (b : Bin)
+    (hv : 0 ≤ b.view ∧ b.view < V) (Ds Dz : Set ℝ) (hDs : ∀ d ∈ Ds, -d ∈ Ds) (hDz : ∀ d ∈ Dz, -d ∈ Dz) :
+    let y := Sym.make V f g
+    (y.findSymOp b).onPoint '' G.tube Ds Dz (y.basic b) = G.tube Ds Dz b :=
+  tube_equivariant_findSymOp V f g hg hy G hG hA b hv Ds Dz hDs hDz
+
+/-- … and for the TOF part when the 180° (hence the 90°) symmetry is off — as it is for TOF data, for which the
+    constructor leaves `shift_z` only (second part); swap_segment and swap_s would be compatible with TOF -/
+theorem C03_lor_equivariant_findSymOp_tof (V : Int) (f : Flags) (g : AxGeo) (hg : g.Symmetric)
+    (hy : (Sym.make V f g).WF) (h180 : (Sym.make V f g).d180 = false) (G : LorGeo) (hG : G.WF) (T : TofGeo)
+    (hA : G.Agrees (Sym.make V f g)) (b : Bin) (hv : 0 ≤ b.view ∧ b.view < V) :
+    let y := Sym.make V f g
+    (y.findSymOp b).onPoint '' G.tofPart T (y.basic b) = G.tofPart T b ∧
+    ∀ (f' : Flags) (sq phi0 xy0 : Bool), (Sym.make V (f'.effective V sq phi0 true xy0) g).d180 = false :=
+  ⟨tofPart_equivariant_findSymOp V f g hg hy h180 G hG T hA b hv, fun f' sq phi0 xy0 => (effective_tof f' V sq phi0 xy0).2.1⟩
+
 /-! ## cache -/
 
 /-- `cache_key` (bit packing 1+28+1+12+1+20 bits) is injective on the box whose bounds `set_up` checks.
@@ -212,6 +324,44 @@ example : endGeo.Symmetric ∧
     (4 * endGeo.minZ ≤ yEnd.centre4 0 1 - 4 ∧ yEnd.centre4 0 1 + 4 ≤ 4 * endGeo.maxZ) ∧
     ¬ (4 * endGeo.minZ ≤ yEnd.centre4 0 0 - 4) ∧ ¬ (yEnd.centre4 0 2 + 4 ≤ 4 * endGeo.maxZ) :=
   ⟨⟨fun s => rfl, fun s => by simp only [endGeo, iabs]; split <;> split <;> omega⟩, by decide, by decide, by decide⟩
+
+/-- the hypotheses of the LOR theorems are satisfiable: 8 views, all switches on, a geometry with tangential sampling
+    2.1 mm and `tan θ = 0.3·segment`; a 90° operation with a bin on either branch of its `onBin`, including the axial
+    compatibility `hz` -/
+example : gLor.WF ∧ yLor.WF ∧ sampleGeo.Symmetric ∧ gLor.Agrees yLor ∧
+    (⟨.swap_xmy_yx, 8, 0, 0, 0⟩ : SymOp).Fits gLor ∧
+    (∀ b ∈ [(⟨1, 1, 0, 2, 0⟩ : Bin), ⟨0, 5, 1, -1, 0⟩],
+      (⟨.swap_xmy_yx, 8, 0, 0, 0⟩ : SymOp).onZ (gLor.zmid b.seg b.ax) =
+        gLor.zmid ((⟨.swap_xmy_yx, 8, 0, 0, 0⟩ : SymOp).onBin b).seg ((⟨.swap_xmy_yx, 8, 0, 0, 0⟩ : SymOp).onBin b).ax) ∧
+    (⟨.swap_xmy_yx, 8, 0, 0, 0⟩ : SymOp).onBin ⟨1, 1, 0, 2, 0⟩ = ⟨1, 5, 0, 2, 0⟩ ∧
+    (⟨.swap_xmy_yx, 8, 0, 0, 0⟩ : SymOp).onBin ⟨0, 5, 1, -1, 0⟩ = ⟨0, 1, 1, 1, 0⟩ := by
+  refine ⟨gLor_WF, yLor_WF, ⟨fun s => rfl, fun s => by simp only [sampleGeo, iabs]; split <;> split <;> omega⟩,
+    gLor_agrees, ⟨fun _ => ⟨rfl, rfl⟩, fun _ => ⟨rfl, rfl⟩, fun _ => ⟨by decide, rfl⟩⟩, ?_, by decide, by decide⟩
+  intro b hb
+  simp only [List.mem_cons, List.not_mem_nil, or_false] at hb
+  rcases hb with rfl | rfl <;>
+    simp [SymOp.onZ, SymOp.onBin, gLor, yLor, Sym.make, Sym.centre4, sampleGeo, AxGeo.zoff4, iabs]
+
+/-- … and the corollary applies to a bin with negative segment and tangential position, a view in (135°,180°) and a
+    non-zero axial position: its LOR is the image, under `swap_ymy_zq` with `q = 3`, `z_shift = 2`, of the LOR of the
+    basic bin `(1, 1, 0, 1)` -/
+example : yLor.findSymOp ⟨-1, 7, 2, -1, 0⟩ = ⟨.swap_ymy_zq, 8, 2, 2, 3⟩ ∧ yLor.basic ⟨-1, 7, 2, -1, 0⟩ = ⟨1, 1, 0, 1, 0⟩ ∧
+    (⟨.swap_ymy_zq, 8, 2, 2, 3⟩ : SymOp).onPoint '' gLor.lor ⟨1, 1, 0, 1, 0⟩ = gLor.lor ⟨-1, 7, 2, -1, 0⟩ := by
+  have h1 : yLor.findSymOp ⟨-1, 7, 2, -1, 0⟩ = ⟨.swap_ymy_zq, 8, 2, 2, 3⟩ := by decide
+  have h2 : yLor.basic ⟨-1, 7, 2, -1, 0⟩ = ⟨1, 1, 0, 1, 0⟩ := by decide
+  have h : (yLor.findSymOp ⟨-1, 7, 2, -1, 0⟩).onPoint '' gLor.lor (yLor.basic ⟨-1, 7, 2, -1, 0⟩) =
+      gLor.lor ⟨-1, 7, 2, -1, 0⟩ :=
+    lor_equivariant_findSymOp 8 ⟨true, true, true, true, true⟩ sampleGeo
+      ⟨fun s => rfl, fun s => by simp only [sampleGeo, iabs]; split <;> split <;> omega⟩ yLor_WF gLor gLor_WF
+      gLor_agrees ⟨-1, 7, 2, -1, 0⟩ ⟨by decide, by decide⟩
+  rw [h1, h2] at h
+  exact ⟨h1, h2, h⟩
+
+/-- the TOF corollary applies with the switches swap_segment, swap_s, shift_z on and a timing position 2 -/
+example : yLorTof.WF ∧ yLorTof.d180 = false ∧ gLor.Agrees yLorTof ∧
+    (yLorTof.findSymOp ⟨-1, 7, 2, -1, 2⟩).kind = .swap_xmx_ymy ∧ yLorTof.basic ⟨-1, 7, 2, -1, 2⟩ = ⟨1, 7, 0, 1, -2⟩ ∧
+    tLor.c 2 = 160 :=
+  ⟨yLorTof_WF, rfl, gLor_agrees_tof, by decide, by decide, by simp only [tLor]; norm_num⟩
 
 /-- two bins that differ in the sign of the tangential position only get different cache keys -/
 example : cacheKey ⟨0, 0, 3, 2, 0⟩ ≠ cacheKey ⟨0, 0, 3, -2, 0⟩ ∧ InBox ⟨0, 0, 3, -2, 0⟩ := by
